@@ -1,4 +1,4 @@
-"""C07 — real-time pacing never runs early and does not drift (Doist(real=True).do + MonoTimer).
+"""C07 — real-time pacing never runs early and does not drift (Doist(real=True).do + MonoTimer, Doist.ado + AsyncTimer).
 
 A case is a session: a Doist(real=True, tock=tock0) is built under a fake clock (hio.base.doing.time and
 hio.help.timing.time rebound to a scripted object), then one or more do() runs, each preceded by a clock
@@ -9,6 +9,10 @@ per cycle the work (p, j) the doer's recur does to the clock.
 
   case = {"t0": float, "tock0": float, "reads": [[p, j], ...], "overs": [o, ...],
           "runs": [{"pre": [p, j], "tock": float | None, "works": [[p, j], ...]}, ...], "exact": bool}
+
+"mode": "ado" (optional) drives asyncio.run(doist.ado()) instead: hio.base.doing.asyncio and hio.help.timing.asyncio
+are rebound to an object whose get_event_loop().time() is the scripted clock and whose sleep() coroutine moves
+it (and then really yields to the real event loop).
 
 "exact" says all values are dyadic and small enough that every float operation in the run is exact, so the
 oracle compares with zero tolerance.
@@ -23,7 +27,7 @@ COQ_CHECK = "RealTime.check_case"
 COQ_CASE_TYPE = "RealTime.case"
 COQ_BRANCHES = ("RealTime.case_branches", "RealTime.n_branches")
 SHARD = 150
-RULE = ("sessions of 1-3 Doist(real=True).do() runs of 1-12 cycles under a scripted clock: tock 0..4 s set at construction "
+RULE = ("sessions of 1-3 Doist(real=True).do() runs (two thirds of the cases) or asyncio.run(doist.ado()) runs (one third; fake loop clock, no backward steps) of 1-12 cycles under a scripted clock: tock 0..4 s set at construction "
         "and/or reassigned before a run; per cycle work shorter or longer than the tock (lateness), per sleep an overshoot "
         "(mostly 0, sometimes several tocks) or an early return, per clock read forward progress and/or a backward jump (small, or hours), clock "
         "steps between construction and run and between runs; a dyadic stream (all float arithmetic exact, oracle with zero "
@@ -31,7 +35,8 @@ RULE = ("sessions of 1-3 Doist(real=True).do() runs of 1-12 cycles under a scrip
         "a case is non-trivial when it has >= 3 cycles and at least one overshoot, lateness or backward step")
 MODELLED = ["binary64 arithmetic via Coq primitive floats (bit exact in the correspondence); the theorems are over exact (Z) time",
             "time.sleep(d) returns after at least d seconds (overshoot >= 0); forward clock jumps are indistinguishable from time passing (excluded by the property)",
-            "the clock is only read where the model reads it (MonoTimer.latest/start); the doers' work is a clock step inside recur"]
+            "the clock is only read where the model reads it (MonoTimer.latest/start, AsyncTimer.start/expired/remaining); the doers' work is a clock step inside recur",
+            "ado: asyncio.sleep is replaced in hio.base.doing's namespace by a coroutine that moves the scripted loop clock and yields once; other tasks on the loop are not modelled"]
 
 MAX_SLEEPS_PER_WAIT = 38   # the model's fuel_per_wait is 40
 
@@ -99,7 +104,110 @@ def _hx(x):
     return float(x).hex()
 
 
+class _FakeLoop:
+    """What asyncio.get_event_loop() returns inside hio.help.timing during an ado() run."""
+
+    def __init__(self, clk):
+        self.clk = clk
+
+    def time(self):
+        return self.clk.time()
+
+
+class _FakeAsyncio:
+    """Stands in for the `asyncio` module inside hio.base.doing (sleep) and hio.help.timing (get_event_loop)."""
+
+    def __init__(self, clk):
+        self._clk = clk
+        self._loop = _FakeLoop(clk)
+
+    def get_event_loop(self):
+        return self._loop
+
+    async def sleep(self, delay, result=None):
+        import asyncio as _a
+        self._clk.sleep(delay)          # the loop clock moves as scripted
+        await _a.sleep(0)               # and the coroutine really yields to the (real) event loop
+        return result
+
+    def __getattr__(self, name):
+        import asyncio as _a
+        return getattr(_a, name)
+
+
+def _ado_frame_timer():
+    """The AsyncTimer is a local of the running ado() coroutine: find its frame from inside recur."""
+    import sys
+    f = sys._getframe(1)
+    while f is not None:
+        if f.f_code.co_name == "ado" and "atimer" in f.f_locals:
+            return f.f_locals["atimer"]
+        f = f.f_back
+    raise _Escape("ado frame with atimer not found")
+
+
 def run_impl(case):
+    if case.get("mode") == "ado":
+        return _run_ado(case)
+    return _run_do(case)
+
+
+def _run_ado(case):
+    import asyncio
+    import hio.base.doing as doing
+    import hio.help.timing as timing
+    clk = FakeClock(case["t0"], case["reads"], case["overs"])
+    fake = _FakeAsyncio(clk)
+    saved = (doing.asyncio, timing.asyncio)
+    doing.asyncio = fake
+    timing.asyncio = fake
+    try:
+        doist = doing.Doist(real=True, tock=case["tock0"])
+        runs = []
+        for r in case["runs"]:
+            clk.advance(float(r["pre"][0]), float(r["pre"][1]))
+            if r["tock"] is not None:
+                doist.tock = r["tock"]
+            tock = doist.tock
+            works = [tuple(map(float, w)) for w in r["works"]]
+            rec = {"cycles": [], "log0": None}
+
+            class Pacer(doing.Doer):
+                def enter(self, **kwa):
+                    rec["log0"] = len(clk.log) + 1   # AsyncTimer(...) reads the loop clock once, .start() is the run start
+                    self.count = 0
+
+                def recur(self, tyme):
+                    rec["cycles"].append({"now": clk.now, "mono": clk.mono, "stop": _ado_frame_timer()._stop,
+                                          "nlog": len(clk.log), "nsleep": len(clk.sleeps)})
+                    clk.run_sleeps = 0
+                    p, j = works[self.count]
+                    clk.advance(p, j)
+                    self.count += 1
+                    return self.count >= len(works)
+
+            asyncio.run(doist.ado(doers=[Pacer(tock=0.0)]))
+            runs.append(_collect(clk, rec, tock))
+        return {"runs": runs}
+    finally:
+        doing.asyncio, timing.asyncio = saved
+
+
+def _collect(clk, rec, tock):
+    cyc = rec["cycles"]
+    ends = [c["nsleep"] for c in cyc[1:]] + [len(clk.sleeps)]
+    log0 = rec["log0"]
+    out = {"tock": _hx(tock), "start": _hx(clk.log[log0]), "start_mono": _hx(clk.mlog[log0]),
+           "cycles": [], "end": _hx(clk.now), "end_mono": _hx(clk.mono),
+           "readings": [_hx(x) for x in clk.log[log0:]]}
+    for c, e in zip(cyc, ends):
+        out["cycles"].append({"now": _hx(c["now"]), "mono": _hx(c["mono"]), "stop": _hx(c["stop"]),
+                              "nlog": c["nlog"] - log0,
+                              "sleeps": [[_hx(a), _hx(d)] for a, d in clk.sleeps[c["nsleep"]:e]]})
+    return out
+
+
+def _run_do(case):
     import hio.base.doing as doing
     import hio.help.timing as timing
     clk = FakeClock(case["t0"], case["reads"], case["overs"])
@@ -132,18 +240,7 @@ def run_impl(case):
                     return self.count >= len(works)
 
             doist.do(doers=[Pacer(tock=0.0)])
-            cyc = rec["cycles"]
-            ends = [c["nsleep"] for c in cyc[1:]] + [len(clk.sleeps)]
-            log0 = rec["log0"]
-            out = {"tock": _hx(tock), "start": _hx(clk.log[log0]), "start_mono": None,
-                   "cycles": [], "end": _hx(clk.now), "end_mono": _hx(clk.mono),
-                   "readings": [_hx(x) for x in clk.log[log0:]]}
-            out["start_mono"] = _hx(clk.mlog[log0])
-            for c, e in zip(cyc, ends):
-                out["cycles"].append({"now": _hx(c["now"]), "mono": _hx(c["mono"]), "stop": _hx(c["stop"]),
-                                      "nlog": c["nlog"] - log0,
-                                      "sleeps": [[_hx(a), _hx(d)] for a, d in clk.sleeps[c["nsleep"]:e]]})
-            runs.append(out)
+            runs.append(_collect(clk, rec, tock))
         return {"runs": runs}
     finally:
         doing.time, timing.time = saved
@@ -157,6 +254,7 @@ def _fr(h):
 
 def oracle(case, obs):
     import math
+    ado = case.get("mode") == "ado"     # AsyncTimer: plain Timer over the loop clock, no retrograde shifts
     for ri, (r, o) in enumerate(zip(case["runs"], obs["runs"])):
         tock = _fr(o["tock"])
         n = len(o["cycles"])
@@ -184,7 +282,7 @@ def oracle(case, obs):
         # retrograde shifts seen so far -- lateness, work and overshoot never enter
         for k, c in enumerate(o["cycles"]):
             seen = readings[:c["nlog"]]
-            sh = sum((min(Fraction(0), b - a) for a, b in zip(seen, seen[1:])), Fraction(0))
+            sh = Fraction(0) if ado else sum((min(Fraction(0), b - a) for a, b in zip(seen, seen[1:])), Fraction(0))
             want = start + (k + 1) * tock + sh
             got = _fr(c["stop"])
             if abs(got - want) > unit * (k + 2 + c["nlog"]):
@@ -192,7 +290,7 @@ def oracle(case, obs):
                         f"of {float(tock)} + retrograde shifts {float(sh)} = {float(want)} (drift {float(got - want)})")
         # (C) behaviour, without looking at the timer: in a run with no retrograde reading every sleep
         # aims exactly at start + (k+1) tocks whatever the lateness of earlier cycles
-        if all(b >= a for a, b in zip(readings, readings[1:])):
+        if ado or all(b >= a for a, b in zip(readings, readings[1:])):
             for k, c in enumerate(o["cycles"]):
                 for a, d in c["sleeps"]:
                     target = _fr(a) + _fr(d)
@@ -212,8 +310,11 @@ def _run(works, pre=(0.0, 0.0), tock=None):
     return {"pre": list(pre), "tock": tock, "works": [list(w) for w in works]}
 
 
-def _case(t0, tock0, runs, reads=(), overs=(), exact=True):
-    return {"t0": t0, "tock0": tock0, "reads": [list(r) for r in reads], "overs": list(overs), "runs": runs, "exact": exact}
+def _case(t0, tock0, runs, reads=(), overs=(), exact=True, mode="do"):
+    c = {"t0": t0, "tock0": tock0, "reads": [list(r) for r in reads], "overs": list(overs), "runs": runs, "exact": exact}
+    if mode != "do":
+        c["mode"] = mode
+    return c
 
 
 Z = (0.0, 0.0)
@@ -255,6 +356,17 @@ def directed():
         _case(10.0, -0.5, [_run([Z] * 3), _run([Z] * 3, tock=-1.0)]),
         # stalled clock (no work, no overshoot) and default tock
         _case(0.0, 0.03125, [_run([Z] * 8)]),
+        # ---- asyncio.run(doist.ado()): AsyncTimer over the loop clock (monotonic: no backward steps)
+        _case(50.0, 1.0, [_run([w(0.125)] * 5)], mode="ado"),
+        _case(50.0, 0.5, [_run([Z] * 5, tock=2.0)], mode="ado"),                       # tock reassigned before ado()
+        _case(50.0, 1.0, [_run([w(0.25), w(3.5), w(0.25), w(0.25), w(0.25), w(0.25)])], mode="ado"),   # lateness
+        _case(8.0, 0.25, [_run([Z] * 6)], overs=[0.5, 0.375, 0.0, 1.0, 0.25, 0.125], mode="ado"),       # overshoots
+        _case(50.0, 1.0, [_run([w(0.125)] * 4)], overs=[["early", 0.25], ["early", 0.5], 0.0, ["early", 0.0], ["early", 2.0], 0.0],
+              mode="ado"),                                                                 # early wakeups
+        _case(50.0, 1.0, [_run([w(0.25)] * 3)], reads=[Z, Z, Z, (2.0, 0.0), Z, Z, (0.5, 0.0), (0.5, 0.0)], mode="ado"),  # sleep(0.0)
+        _case(50.0, 0.5, [_run([w(0.25)] * 3), _run([w(0.25)] * 4, pre=(10.0, 0.0), tock=1.0)], mode="ado"),          # two runs
+        _case(3.0, 0.0, [_run([w(0.5)] * 3)], mode="ado"),
+        _case(12345.678, 0.1, [_run([(0.01, 0.0)] * 6)], overs=[0.003, 0.0, 0.25], exact=False, mode="ado"),
         # non-dyadic values
         _case(1700000000.123, 0.1, [_run([(0.01, 0.0)] * 6)], overs=[0.003, 0.0, 0.25], exact=False),
         _case(0.1, 1 / 3, [_run([(0.05, 0.0), (0.7, 0.0), (0.05, 0.3), (0.05, 0.0)], pre=(0.2, 0.7), tock=0.3)],
@@ -267,7 +379,17 @@ def _dy(rng, hi, q=64):
     return rng.randint(0, int(hi * q)) / q
 
 
-def _gen_case(rng, exact):
+def _gen_case(rng, exact, ado=False):
+    if ado:
+        c = _gen_case(rng, exact)
+        # the event loop's clock is monotonic and starts near zero: no backward step anywhere
+        c["t0"] = rng.choice([0.0, 0.25, 1024.5, 262144.0]) if exact else rng.choice([0.1, 12.3456, rng.uniform(0, 1e6)])
+        c["reads"] = [[p, 0.0] for p, _ in c["reads"]]
+        for r in c["runs"]:
+            r["pre"][1] = 0.0
+            r["works"] = [[p, 0.0] for p, _ in r["works"]]
+        c["mode"] = "ado"
+        return c
     if exact:
         t0 = rng.choice([0.0, 1.0, 1000.0, 4096.5, 1048576.0, 1700000000.0, 1700000000.0 + _dy(rng, 100)])
         tocks = [0.0, 0.015625, 0.03125, 0.125, 0.25, 0.5, 1.0, 1.5, 2.0, 4.0]
@@ -339,7 +461,7 @@ def _gen_case(rng, exact):
 
 def generate(rng, tier):
     n = 700 if tier == "quick" else 9000
-    return [_gen_case(rng, exact=(i % 4 != 3)) for i in range(n)]
+    return [_gen_case(rng, exact=(i % 4 != 3), ado=(i % 3 == 2)) for i in range(n)]
 
 
 # --------------------------------------------------------------------------- Gallina
@@ -374,8 +496,9 @@ def to_coq(case, obs):
         outs.append("{| RealTime.f_start := %s; RealTime.f_start_mono := %s; RealTime.f_cycles := %s; "
                     "RealTime.f_end := %s; RealTime.f_end_mono := %s |}" % (
                         _hf(o["start"]), _hf(o["start_mono"]), cycs, _hf(o["end"]), _hf(o["end_mono"])))
-    return ("{| RealTime.k_t0 := %s; RealTime.k_tock0 := %s; RealTime.k_reads := %s; RealTime.k_overs := %s; "
+    return ("{| RealTime.k_async := %s; RealTime.k_t0 := %s; RealTime.k_tock0 := %s; RealTime.k_reads := %s; RealTime.k_overs := %s; "
             "RealTime.k_runs := %s; RealTime.k_obs := %s |}" % (
+                "true" if case.get("mode") == "ado" else "false",
                 _fl(case["t0"]), _fl(case["tock0"]), coq_list([_pair(r) for r in case["reads"]], "float * float"),
                 coq_list([_slp(o) for o in case["overs"]], "@RealTime.slp float"), runs, coq_list(outs, "RealTime.frun")))
 
@@ -427,7 +550,7 @@ def shrink(case):
 
 
 def distribution(cases, obs):
-    d = {"cases": len(cases), "exact": 0, "cycles": 0, "cycles_no_wait": 0, "cycles_multi_sleep": 0, "runs_with_retro_reading": 0,
+    d = {"cases": len(cases), "ado_cases": sum(1 for c in cases if c.get("mode") == "ado"), "exact": 0, "cycles": 0, "cycles_no_wait": 0, "cycles_multi_sleep": 0, "runs_with_retro_reading": 0,
          "runs": 0, "runs_tock_reassigned": 0, "runs_pre_step_back": 0, "sleep_calls": 0}
     for c, o in zip(cases, obs):
         if not isinstance(o, dict) or "runs" not in o:
@@ -449,20 +572,22 @@ def distribution(cases, obs):
 
 # --------------------------------------------------------------------------- extra: exhaustive grid + real clock
 
-def _grid(nreads, ctx):
+def _grid(nreads, ctx, ado=False):
     """Every environment of a small grid, run on the real code and judged by the oracle: 2 cycles of tock 1,
     work in {0, 1/2, 3/2} per cycle, each of the first `nreads` clock reads preceded by nothing, 1/4 s of
     progress or a 3/4 s step back, the first two sleeps exact, 1/2 s over, or returning after 1/4 s."""
     import itertools
     n = bad = 0
     wk = [0.0, 0.5, 1.5]
-    rd = [[0.0, 0.0], [0.25, 0.0], [0.0, 0.75]]
+    rd = [[0.0, 0.0], [0.25, 0.0], [0.75, 0.0]] if ado else [[0.0, 0.0], [0.25, 0.0], [0.0, 0.75]]   # loop clock: no step back
     ov = [0.0, 0.5, ["early", 0.25]]
     for w0, w1 in itertools.product(wk, wk):
         for o0, o1 in itertools.product(ov, ov):
             for reads in itertools.product(rd, repeat=nreads):
                 case = {"t0": 100.0, "tock0": 1.0, "reads": [list(r) for r in reads], "overs": [o0, o1], "exact": True,
                         "runs": [{"pre": [0.0, 0.0], "tock": None, "works": [[w0, 0.0], [w1, 0.0]]}]}
+                if ado:
+                    case["mode"] = "ado"
                 why = oracle(case, run_impl(case))
                 n += 1
                 if why is not None:
@@ -504,8 +629,41 @@ def _real_clock_soak(ctx, cycles, tock):
             "mean_period_s": round((marks[-1] - marks[0]) / max(1, len(marks) - 1), 5)}
 
 
+def _real_loop_soak(ctx, cycles, tock):
+    """asyncio.run(doist.ado()) on the real event loop and its real clock; cycle starts from time.monotonic()."""
+    import asyncio
+    import time as _time
+    import hio.base.doing as doing
+    marks = []
+
+    class Pacer(doing.Doer):
+        def enter(self, **kwa):
+            self.count = 0
+
+        def recur(self, tyme):
+            marks.append(_time.monotonic())
+            self.count += 1
+            if self.count % 3 == 0:
+                _time.sleep(tock * 1.5)      # a late cycle (blocks the loop, as a slow doer would)
+            return self.count >= cycles
+
+    doist = doing.Doist(real=True, tock=tock * 4)
+    doist.tock = tock
+    asyncio.run(doist.ado(doers=[Pacer(tock=0.0)]))
+    slack = 0.002
+    for k, m in enumerate(marks):
+        if m - marks[0] < k * tock - slack:
+            ctx.violations.append({"kind": "real-loop", "no_input": True, "case": {"cycles": cycles, "tock": tock},
+                                   "why": f"real event loop: cycle {k} began {m - marks[0]:.6f} s after cycle 0, earlier than {k} tocks of {tock} s"})
+            break
+    return {"cycles": len(marks), "tock": tock, "span_s": round(marks[-1] - marks[0], 4),
+            "mean_period_s": round((marks[-1] - marks[0]) / max(1, len(marks) - 1), 5)}
+
+
 def extra(tier, ctx):
     n = _grid(5 if tier == "quick" else 7, ctx)
-    out = {"exhaustive_grid_runs": n, "exhaustive": False}
+    na = _grid(4 if tier == "quick" else 6, ctx, ado=True)
+    out = {"exhaustive_grid_runs": n, "exhaustive_grid_runs_ado": na, "exhaustive": False}
     out["real_clock_soak"] = _real_clock_soak(ctx, 12 if tier == "quick" else 60, 0.02)
+    out["real_loop_soak_ado"] = _real_loop_soak(ctx, 12 if tier == "quick" else 60, 0.02)
     return out
